@@ -24,6 +24,9 @@ pub fn run(ctx: &mut Ctx, prop: &str) {
     if prop == "C14" || prop == "C03" || prop == "C02" {
         stream_repeated_point(ctx, prop);
     }
+    if prop == "C03" || prop == "C04" || prop == "C06" || prop == "C10" {
+        identity_shifted_relabel(ctx, prop);
+    }
 }
 
 /// the scheme's random oracle (hash-and-retry into the scalar field)
@@ -286,4 +289,94 @@ fn stream_repeated_point(ctx: &mut Ctx, prop: &str) {
         }
         ctx.rep.case(&format!("attack stream repeated point accepted={} (verifier outcome {:?})", accepted, r.as_ref().map(|b| *b).map_err(|e| e.chars().take(40).collect::<String>())), Some(format!("attack-stream-repeated/{}", i % 4)));
     }
+}
+
+/// A commitment to a polynomial of degree 10 made WITHOUT bound is presented under the enforced bound 5 with
+/// the identity element as its shifted part, together with the library's own proofs for the unbounded
+/// commitment: `check`, `batch_check` and `check_combinations` (single term, coefficient one) must not accept a
+/// non-zero value (the verifier's equation then contains the extra term `ξ'·v·…` of the bound, which only
+/// vanishes for `v = 0`). MarlinKZG10 and the inner-product argument (the two schemes with shifted commitments).
+fn identity_shifted_relabel(ctx: &mut Ctx, prop: &str) {
+    use ark_poly_commit::{Evaluations, LabeledCommitment, LinearCombination, QuerySet};
+    fn go<PC, FC>(ctx: &mut Ctx, prop: &str, name: &str, craft: FC)
+    where
+        PC: PolynomialCommitment<Fr, UniPoly>,
+        FC: Fn(&PC::Commitment) -> PC::Commitment,
+    {
+        for i in 0..ctx.n(3, 12) {
+            let id = format!("{}/attack-identity-shifted/{}/{}", prop, name, i);
+            if !ctx.selected(&id) {
+                continue;
+            }
+            let mut rng = rng_for(ctx.seed, "attack-identity-shifted", i as u64);
+            let (deg, bound) = (10 + i % 3, 5 + i % 2);
+            let r = guarded(|| -> Result<Vec<(&'static str, bool)>, String> {
+                let pp = PC::setup(15, None, &mut rng).map_err(|e| format!("setup {:?}", e))?;
+                let (ck, vk) = PC::trim(&pp, 15, 0, Some(&[bound])).map_err(|e| format!("trim {:?}", e))?;
+                let poly = <UniPoly as DenseUVPolynomial<Fr>>::rand(deg, &mut rng);
+                let lp = LabeledPolynomial::new("p".to_string(), poly.clone(), None, None);
+                let (comms, sts) = PC::commit(&ck, [&lp], None).map_err(|e| format!("commit {:?}", e))?;
+                let mut z = Fr::rand(&mut rng);
+                while poly.evaluate(&z).is_zero() || z.is_zero() {
+                    z = Fr::rand(&mut rng);
+                }
+                let v = poly.evaluate(&z);
+                let crafted = vec![LabeledCommitment::new("p".to_string(), craft(comms[0].commitment()), Some(bound))];
+                let mut out = vec![];
+                // single opening
+                let mut sp = generic::fresh_sponge();
+                let pf = PC::open(&ck, [&lp], &comms, &z, &mut sp, &sts, None).map_err(|e| format!("open {:?}", e))?;
+                let mut sp = generic::fresh_sponge();
+                out.push(("check", PC::check(&vk, &crafted, &z, [v], &pf, &mut sp, None).unwrap_or(false)));
+                // batch
+                let mut qs = QuerySet::new();
+                qs.insert(("p".to_string(), ("z".to_string(), z)));
+                let mut ev = Evaluations::new();
+                ev.insert(("p".to_string(), z), v);
+                let mut sp = generic::fresh_sponge();
+                let bp = PC::batch_open(&ck, [&lp], &comms, &qs, &mut sp, &sts, None).map_err(|e| format!("batch_open {:?}", e))?;
+                let mut sp = generic::fresh_sponge();
+                out.push(("batch_check", PC::batch_check(&vk, &crafted, &qs, &ev, &bp, &mut sp, &mut rng).unwrap_or(false)));
+                // combination 1·p
+                let lc = LinearCombination::new("lc", vec![(Fr::one(), "p".to_string())]);
+                let mut lqs = QuerySet::new();
+                lqs.insert(("lc".to_string(), ("z".to_string(), z)));
+                let mut lev = Evaluations::new();
+                lev.insert(("lc".to_string(), z), v);
+                let mut sp = generic::fresh_sponge();
+                let lp_ = PC::open_combinations(&ck, [&lc], [&lp], &comms, &lqs, &mut sp, &sts, None)
+                    .map_err(|e| format!("open_combinations {:?}", e))?;
+                let mut sp = generic::fresh_sponge();
+                out.push(("check_combinations",
+                    PC::check_combinations(&vk, [&lc], &crafted, &lqs, &lev, &lp_, &mut sp, &mut rng).unwrap_or(false)));
+                Ok(out)
+            });
+            match r {
+                Ok(Ok(outs)) => {
+                    for (what, acc) in &outs {
+                        if *acc {
+                            ctx.rep.expect_fail(&id, &format!("{}/unenforced-bound-accepted/identity-shifted/{}", name, what),
+                                &format!("{} accepted a degree-{} polynomial's commitment presented under the enforced bound {} with the identity as shifted part", what, deg, bound),
+                                format!("# scheme: {}\n# case: {}\n# seed: {}\n# commitment made without bound, relabelled Some({}) with shifted_comm = Some(identity); library's own proof; value p(z) != 0\n# rerun: .build/cargo/debug/pcv-harness {} --seed {} --only {}\n", name, id, ctx.seed, bound, prop, ctx.seed, id));
+                        }
+                    }
+                    ctx.rep.case(&format!("attack identity-shifted {} deg={} bound={} {:?}", name, deg, bound, outs), Some(format!("attack-identity-shifted/{}", name)));
+                }
+                Ok(Err(e)) | Err(e) => {
+                    // a refusal anywhere (e.g. an assertion on the crafted commitment) is not an acceptance
+                    ctx.rep.case(&format!("attack identity-shifted {} refused: {}", name, e.chars().take(60).collect::<String>()), Some(format!("attack-identity-shifted/{}/refused", name)));
+                }
+            }
+        }
+    }
+    go::<generic::MarlinPC, _>(ctx, prop, "marlin", |c| {
+        let mut c = c.clone();
+        c.shifted_comm = Some(ark_poly_commit::kzg10::Commitment(ark_bls12_381::G1Affine::zero()));
+        c
+    });
+    go::<IpaPC, _>(ctx, prop, "ipa", |c| {
+        let mut c = c.clone();
+        c.shifted_comm = Some(G1Affine::zero());
+        c
+    });
 }
